@@ -122,7 +122,8 @@ PROPS = {
                         "Verifier::new establishing self.transcript == base(label, vk, constraints)"],
     },
     "C05": {
-        "r": [("widgets", pk_unit), ("prover", lambda n: n.startswith("quotient.")), ("composer_leaves", lambda n: "internal" in n)],
+        "r": [("widgets", pk_unit), ("prover", lambda n: n.startswith("quotient.") or n.startswith("prover.prove_inner")), ("composer_leaves", lambda n: "internal" in n),
+              ("permutation", None)],
         "claim": "the five ProverKey::compute_quotient_i / compute_linearization and the permutation quotient/linearizer "
                  "terms equal, as polynomials in all their inputs, the gate identities of specs/ring/protocol.py times "
                  "selector and separation challenge (all field values, all rows); quotient_poly::compute returns "
@@ -179,7 +180,8 @@ PROPS = {
     },
     "C09": {
         "v_units": ["range.py", "range_lemmas.py"],
-        "r": [("widgets", lambda n: n.startswith("range.")), ("composer_leaves", lambda n: "internal" in n)],
+        "r": [("widgets", lambda n: n.startswith("range.")), ("composer_leaves", lambda n: "internal" in n),
+              ("gadgets", lambda n: n.startswith("range."))],
         "claim": "layout of the range gadget for EVERY width 0..=256 (loop invariants, no bound): range_check_even emits exactly "
                  "rce_rows(nb) (ceil(nb/8) selected rows, accumulators on D,C,B,A most-significant first, unselected carrier row, closing "
                  "equality), range_check adds the lower/top split for odd widths, component_range_bits::<B> == range_check(B), "
